@@ -904,3 +904,45 @@ def c10_o(ctx):
                for i in ctx.instances):
         ctx.ok('elfi.methods.bo', 'numpy names exist', '{} numpy references in {} modules, none '
                'in the removed-names table'.format(n, len(mods)))
+
+
+@obligation('C10-p', 'T11', 'the surrogate answers from the fitted Gaussian process exactly when one '
+            'exists: the prior fallback (zero mean, unit variance, zero gradients, zero evidence) '
+            'is returned only under `self._gp is None`', floor=5,
+            necessary='with the test negated the posterior is computed from the constant fallback '
+                      'although evidence was fitted (nothing raises): log density, gradient and '
+                      'the evidence count no longer describe the surrogate')
+def c10_p(ctx):
+    cls = ctx.cls('elfi.methods.bo.gpy_regression:GPyRegression')
+    none_t = pattern('self._gp is None')
+    n = 0
+    for name in ('predict', 'predictive_gradients', 'n_evidence'):
+        m = cls.lookup(name)
+        if m is None:
+            raise AnchorMissing('GPyRegression.' + name)
+        ex = ctx.ex(m)
+        for r in returns(m):
+            if r.value is None:
+                continue
+            t = ex.term(r.value)
+            uses_gp = contains(t, 'self._gp') or contains(t, 'self._rbf_woodbury') or \
+                contains(t, 'self._rbf_x2sum') or contains(t, 'self._gp.X')
+            gs = [(g, pol) for (g, pol, _) in ctx.guards(m, r, all_dominating=True)]
+            under_none = any(pol and match(g, none_t) is not None for (g, pol) in gs)
+            under_some = any((not pol) and match(g, none_t) is not None for (g, pol) in gs)
+            n += 1
+            if uses_gp:
+                ctx.check(under_some, m, 'an answer computed from the GP is given when a GP exists',
+                          'after `if self._gp is None: return <fallback>`',
+                          '`{}` reads the GP on a path on which `self._gp is None` was not '
+                          'excluded'.format(src(r)[:60]), fn=m, node=r)
+            elif under_none or not under_some:
+                ctx.check(under_none, m, 'the fallback is returned only without a GP',
+                          'if self._gp is None: return <constants>',
+                          '`{}` returns a constant answer although a GP may exist'.format(
+                              src(r)[:60]), fn=m, node=r)
+            else:
+                ctx.ok(m, 'answer under an existing GP', src(r)[:50], fn=m, node=r)
+    if n < 5:
+        ctx.undecided('expected at least 5 returns in predict / predictive_gradients / '
+                      'n_evidence, found {}'.format(n))
